@@ -34,7 +34,7 @@ def embedded_table(mg, mp, mask, N):
     return g, p
 
 
-def h_definition(env, N, mask, L, kind='list', dtype='int64'):
+def h_definition(env, N, mask, L, kind='list', dtype='int64', mask_form='array'):
     """transform_by (masked or not) equals the homomorphic extension of the listed images, for ANY table"""
     M = Mods(env)
     n = N if mask is None else sum(mask)
@@ -52,7 +52,8 @@ def h_definition(env, N, mask, L, kind='list', dtype='int64'):
         cre = env.ints('c_re', (L,), 0, 3)
         obj.set_cs(cre * (1 + 0j) if not env.symbolic else cre.copy())
         cs_before = snapshot(obj.cs)
-    mk = None if mask is None else np.array(mask, dtype=bool)
+    # mask_form: numpy bool array (as utils.mask builds it) or a plain Python list / tuple of bools
+    mk = None if mask is None else {'array': lambda: np.array(mask, dtype=bool), 'list': lambda: [bool(b) for b in mask], 'tuple': lambda: tuple(bool(b) for b in mask)}[mask_form]()
     r = env.run(lambda: obj.transform_by(m) if mk is None else obj.transform_by(m, mk))
     env.goal('no_exception', b_not(r.raised))
     if r.value is None:
@@ -210,6 +211,9 @@ def jobs(tier):
         for m in mks:
             J.append(dict(harness=('c03', 'h_definition'), params=dict(N=N, mask=m, L=2, kind='list')))
             J.append(dict(harness=('c03', 'h_definition'), params=dict(N=N, mask=m, L=1, kind='pauli')))
+            if m is not None and N in (2, 3) and sum(m) < N:
+                for form in ('list', 'tuple'):
+                    J.append(dict(harness=('c03', 'h_definition'), params=dict(N=N, mask=m, L=1, kind='list', mask_form=form)))
             if N <= 2:
                 J.append(dict(harness=('c03', 'h_definition'), params=dict(N=N, mask=m, L=2, kind='list', dtype='uint8')))
                 J.append(dict(harness=('c03', 'h_definition'), params=dict(N=N, mask=m, L=1, kind='pauli', dtype='uint8')))
